@@ -14,7 +14,7 @@ correlated branches).  Valid combinations at the normal exit of a public mutator
 import ast
 import re
 
-from .core import AnalysisError, norm, short, walk_local, parent_chain
+from .core import AnalysisError, norm, short, walk_local, parent_chain, copy_tree
 from .cfg import forward, Branch, node_exprs
 from .effects import root_and_depth
 from .kinds import RELATIONS
@@ -355,6 +355,16 @@ class Pairing:
             raise AnalysisError("pairing summaries did not converge")
         self.rounds = rounds
 
+    def analyse_view(self, g):
+        """results for a view of a function (helpers spliced in) without disturbing what is stored for the function itself"""
+        saved = (self.results.get(g.key), self.summary.get(g.key))
+        self.M._events.pop(g.key, None)
+        self._analyse(g)
+        res = self.results[g.key]
+        self.results[g.key], self.summary[g.key] = saved
+        self.M._events.pop(g.key, None)
+        return res
+
     def _analyse(self, f):
         """worlds are (facts, rel, tokens):
         tokens = frozenset of effects performed on this path:
@@ -569,11 +579,32 @@ def _alpha0(e, copy):
     if not bound:
         return e
     ren = {b: "%s_cv" % b for b in bound}
-    e2 = copy.deepcopy(e)
+    e2 = copy_tree(e)
     for n in ast.walk(e2):
         if isinstance(n, ast.Name) and n.id in ren:
             n.id = ren[n.id]
     return e2
+
+
+def with_def_consequences(facts):
+    """facts plus what follows from `x = <boolean expression>; … x is known true/false`: the atoms of the expression itself"""
+    defs = {}
+    for a in facts:
+        m = re.match(r"def\((\w+),(.*)\)$", a)
+        if m:
+            defs[m.group(1)] = m.group(2)
+    out = set(facts)
+    for a in list(facts):
+        m = re.match(r"(truthy|falsy)\((\w+)\)$", a)
+        if m and m.group(2) in defs:
+            try:
+                e = ast.parse(defs[m.group(2)], mode="eval").body
+            except SyntaxError:
+                continue
+            alts = alts_of(e, m.group(1) == "truthy")
+            if len(alts) == 1:
+                out |= set(alts[0])
+    return frozenset(out)
 
 
 def expand_defs(text, facts, depth=3):
